@@ -12,6 +12,7 @@
 -/
 import LiquidModel.Lemmas.C12
 import LiquidModel.Model.Render
+import LiquidModel.Props.C07
 namespace Liquid.C12
 open Liquid
 
@@ -557,5 +558,50 @@ serde_derive by the identifier (`type`): the two views of the same struct disagr
 theorem C12_derive_raw_ident_old_counterexample :
     deriveKeyOld true "type".toList = "r#type".toList ∧ deriveKeyOld true "type".toList ≠ "type".toList := by
   decide
+
+theorem natDigits_injective (a b : Nat) (h : natDigits a = natDigits b) : a = b := by
+  have ha := C07.digitsVal_natDigits a
+  have hb := C07.digitsVal_natDigits b
+  rw [h] at ha
+  rw [ha] at hb
+  exact Option.some.inj hb
+
+theorem intRepr_injective (n m : Int) (h : intRepr n = intRepr m) : n = m := by
+  unfold intRepr at h
+  have hd : ∀ k : Nat, (natDigits k).head? ≠ some '-' := by
+    intro k hk
+    have hne := C07.natDigits_ne_nil k
+    cases hr : natDigits k with
+    | nil => exact hne hr
+    | cons c r =>
+      rw [hr] at hk
+      simp at hk
+      have := C07.natDigits_isDigit k c (by rw [hr]; exact List.mem_cons_self)
+      subst hk
+      simp [Char.isDigit] at this
+  by_cases hn : n < 0 <;> by_cases hm : m < 0
+  · simp only [hn, hm, if_true, List.cons.injEq, true_and] at h
+    have := natDigits_injective _ _ h
+    omega
+  · simp only [hn, hm, if_true, if_false] at h
+    exact absurd (by rw [← h]; rfl) (hd m.natAbs)
+  · simp only [hn, hm, if_true, if_false] at h
+    exact absurd (by rw [h]; rfl) (hd n.natAbs)
+  · simp only [hn, hm, if_false] at h
+    have := natDigits_injective _ _ h
+    omega
+
+/-- **A map key stays the key it was.** The text under which an integer key of a Rust map appears in
+the object is the decimal text of that very integer, for every integer of every width up to 64 bits
+(a `u64` above `i64::MAX` included: it is not squeezed through a narrower type first); different
+integers give different keys, and string keys are kept as they are. -/
+theorem C12_map_key_exact (t : IntTag) (n m : Int) (ht : t.is128 = false) :
+    mapKey (.int t n) = .ok (intRepr n) ∧
+    (mapKey (.int t n) = mapKey (.int t m) → n = m) ∧
+    (∀ s : Str, mapKey (.str s) = .ok s) := by
+  refine ⟨by simp [mapKey, ht], ?_, fun s => rfl⟩
+  intro h
+  have : intRepr n = intRepr m := by simpa [mapKey, ht] using h
+  exact intRepr_injective n m this
 
 end Liquid.C12
